@@ -270,6 +270,40 @@ def reuse_case(group):
     return out
 
 
+def h2f_case(m, count, mi, ti, hn):
+    """hash_to_field of the suite (section 5.2) for a count other than the 2 that hash_to_curve uses"""
+    HC = _hc()
+    msg, dst = _msgs()[mi], _tags()[ti]
+    exp = h2c.hash_to_field(msg, count, dst, m, hn)
+    f = HC.hash_to_field_FQ if m == 1 else HC.hash_to_field_FQ2
+    try:
+        out = f(msg, count, dst, getattr(hashlib, hn))
+        got = tuple(int(x.n) for x in out) if m == 1 else tuple(tuple(int(c) for c in x.coeffs) for x in out)
+    except Exception as e:  # noqa: BLE001
+        got = "raise " + type(e).__name__
+    return exp, got
+
+
+def task_h2f(a, env):
+    r = R("hash_to_field:counts")
+    for m in (1, 2):
+        for count in range(0, 7):
+            for (mi, ti, hn) in ((1, 0, "sha256"), (0, 1, "sha256"), (2, 5, "sha512")):
+                exp, got = h2f_case(m, count, mi, ti, hn)
+                r.ev += 1
+                r.dk.add((m, count, mi, ti, hn))
+                if exp != got:
+                    r.viol("C10:hash_to_field:m=%d:%s" % (m, "count<=2" if count <= 2 else "count>2"), ME + ":replay_h2f",
+                           {"m": m, "count": count, "mi": mi, "ti": ti, "h": hn}, exp, got)
+    r.sample({"counts": "0..6", "m": [1, 2]})
+    return r
+
+
+def replay_h2f(a):
+    exp, got = h2f_case(a["m"], a["count"], a["mi"], a["ti"], a["h"])
+    return None if exp == got else {"expected": exp, "observed": got}
+
+
 def task_reuse(a, env):
     r = R("hash_to_curve:bytearray-arguments-reused")
     for group in ("E2", "E1"):
@@ -347,6 +381,7 @@ def run(ctx):
         if ch:
             tasks.append(("pipe", {"cases": ch, "sample": i == 0}))
     tasks.append(("reuse", {}))
+    tasks.append(("h2f", {}))
     ctx.bounds = {"map_to_curve": plan, "pipeline_cases_per_group": len(cases), "hashes": hashes}
     ctx.pmap(ME, tasks)
     # branch-coverage requirement is part of the evidence, not a verdict on the code
